@@ -1,4 +1,5 @@
-(* Proofs about NV.Async.Framing. *)
+(* Proofs about NV.Async.Framing (repaired async framing): for ALL byte strings and ALL poll
+   scripts the async frame stream equals the sync frame stream, including how it ends. *)
 From Coq Require Import List Arith NArith Bool Lia.
 From NV Require Import Async.Framing.
 Import ListNotations.
@@ -20,48 +21,40 @@ Qed.
 
 Global Opaque block_size.
 
-Lemma decode_some : forall b fr rest,
-  decode b = Some (fr, rest) ->
-  HDR <= length b /\ block_size b <= length b /\ fr = firstn (block_size b) b /\
-  rest = skipn (block_size b) b /\ b = fr ++ rest /\ length fr = block_size b /\
-  length rest < length b.
+Lemma decode_frame : forall b fr rest,
+  decode b = Frame fr rest ->
+  HDR <= length b /\ MIN_FRAME <= block_size b /\ block_size b <= length b /\
+  fr = firstn (block_size b) b /\ rest = skipn (block_size b) b /\ length rest < length b.
 Proof.
   intros b fr rest H. unfold decode in H.
   destruct (length b <? HDR) eqn:E1; [discriminate|].
+  destruct (block_size b <? MIN_FRAME) eqn:E0; [discriminate|].
   destruct (length b <? block_size b) eqn:E2; [discriminate|].
-  apply Nat.ltb_ge in E1. apply Nat.ltb_ge in E2.
+  apply Nat.ltb_ge in E1, E0, E2.
   injection H as Hfr Hrest. subst fr rest.
-  pose proof (block_size_pos b) as Hp.
   repeat split; try assumption.
-  - symmetry. apply firstn_skipn.
-  - rewrite firstn_length. lia.
-  - rewrite skipn_length. lia.
+  rewrite skipn_length. unfold MIN_FRAME in E0. lia.
 Qed.
 
-Lemma decode_none : forall b,
-  decode b = None -> length b < HDR \/ (HDR <= length b /\ length b < block_size b).
+Lemma decode_bad : forall b, decode b = Bad -> HDR <= length b /\ block_size b < MIN_FRAME.
+Proof.
+  intros b H. unfold decode in H.
+  destruct (length b <? HDR) eqn:E1; [discriminate|].
+  destruct (block_size b <? MIN_FRAME) eqn:E0.
+  - split; [apply Nat.ltb_ge; exact E1 | apply Nat.ltb_lt; exact E0].
+  - destruct (length b <? block_size b); discriminate.
+Qed.
+
+Lemma decode_more : forall b,
+  decode b = More ->
+  length b < HDR \/ (HDR <= length b /\ MIN_FRAME <= block_size b /\ length b < block_size b).
 Proof.
   intros b H. unfold decode in H.
   destruct (length b <? HDR) eqn:E1.
   - left. apply Nat.ltb_lt. exact E1.
-  - destruct (length b <? block_size b) eqn:E2; [|discriminate].
-    right. split; [apply Nat.ltb_ge; exact E1 | apply Nat.ltb_lt; exact E2].
-Qed.
-
-Lemma decode_app : forall b x fr rest,
-  decode b = Some (fr, rest) -> decode (b ++ x) = Some (fr, rest ++ x).
-Proof.
-  intros b x fr rest H.
-  destruct (decode_some _ _ _ H) as (Hh & Hn & Hfr & Hrest & _ & _ & _).
-  unfold decode. rewrite app_length.
-  destruct (length b + length x <? HDR) eqn:E1; [apply Nat.ltb_lt in E1; lia|].
-  rewrite block_size_app by exact Hh.
-  destruct (length b + length x <? block_size b) eqn:E2; [apply Nat.ltb_lt in E2; lia|].
-  f_equal. f_equal.
-  - rewrite firstn_app. replace (block_size b - length b) with 0 by lia.
-    cbn [firstn]. rewrite app_nil_r. symmetry. exact Hfr.
-  - rewrite skipn_app. replace (block_size b - length b) with 0 by lia.
-    cbn [skipn]. rewrite Hrest. reflexivity.
+  - destruct (block_size b <? MIN_FRAME) eqn:E0; [discriminate|].
+    destruct (length b <? block_size b) eqn:E2; [|discriminate].
+    right. apply Nat.ltb_ge in E1, E0. apply Nat.ltb_lt in E2. auto.
 Qed.
 
 (* ---------------------------------------------------------------------------------------- *)
@@ -74,29 +67,30 @@ Proof.
     destruct f2; reflexivity.
   - destruct f2 as [|f2].
     + destruct b as [|x b]; [|cbn [length] in H2; lia]. reflexivity.
-    + cbn [drain]. destruct (decode b) as [[fr rest]|] eqn:E; [|reflexivity].
-      destruct (decode_some _ _ _ E) as (_ & _ & _ & _ & _ & _ & Hlt).
+    + cbn [drain]. destruct (decode b) as [| |fr rest] eqn:E; [reflexivity|reflexivity|].
+      destruct (decode_frame _ _ _ E) as (_ & _ & _ & _ & _ & Hlt).
       rewrite (IH f2 rest) by lia. reflexivity.
 Qed.
 
 Lemma drain_all_eq : forall b,
   drain_all b =
   match decode b with
-  | None => ([], b)
-  | Some (fr, rest) => let '(fs, r) := drain_all rest in (fr :: fs, r)
+  | More => ([], Stuck, b)
+  | Bad => ([], Failed, b)
+  | Frame fr rest => let '(fs, st, r) := drain_all rest in (fr :: fs, st, r)
   end.
 Proof.
   intros b. unfold drain_all at 1.
-  destruct (decode b) as [[fr rest]|] eqn:E.
-  - destruct (decode_some _ _ _ E) as (Hh & _ & _ & _ & _ & _ & Hlt).
+  destruct (decode b) as [| |fr rest] eqn:E.
+  - destruct (length b) as [|n]; cbn [drain]; [reflexivity|]. rewrite E. reflexivity.
+  - destruct (decode_bad _ E) as [Hh _].
+    destruct (length b) as [|n] eqn:El; [unfold HDR in Hh; lia|].
+    cbn [drain]. rewrite E. reflexivity.
+  - destruct (decode_frame _ _ _ E) as (Hh & _ & _ & _ & _ & Hlt).
     destruct (length b) as [|n] eqn:El; [unfold HDR in Hh; lia|].
     cbn [drain]. rewrite E. unfold drain_all.
     rewrite (drain_fuel n (length rest) rest) by lia. reflexivity.
-  - destruct (length b) as [|n]; cbn [drain]; [reflexivity|]. rewrite E. reflexivity.
 Qed.
-
-Lemma drain_all_nil : drain_all [] = ([], []).
-Proof. reflexivity. Qed.
 
 (* strong induction on the length of the buffer *)
 Lemma buf_ind : forall (P : list N -> Prop),
@@ -105,98 +99,6 @@ Proof.
   intros P H b. remember (length b) as n eqn:Hn. revert b Hn.
   induction n as [n IH] using lt_wf_ind. intros b Hn. apply H. intros b' Hlt.
   apply (IH (length b')); [lia|reflexivity].
-Qed.
-
-(* the remainder left by drain is stuck, and frames ++ remainder is the buffer *)
-Lemma drain_all_spec : forall b fs r,
-  drain_all b = (fs, r) -> decode r = None /\ b = concat fs ++ r.
-Proof.
-  induction b as [b IH] using buf_ind. intros fs r H.
-  rewrite drain_all_eq in H.
-  destruct (decode b) as [[fr rest]|] eqn:E.
-  - destruct (decode_some _ _ _ E) as (_ & _ & _ & _ & Hb & _ & Hlt).
-    destruct (drain_all rest) as [fs' r'] eqn:E'.
-    injection H as Hfs Hr. subst fs r.
-    destruct (IH rest Hlt fs' r' E') as (Hs & Hc).
-    split; [exact Hs|].
-    cbn [concat]. rewrite <- app_assoc, <- Hc. exact Hb.
-  - injection H as Hfs Hr. subst fs r. split; [exact E|reflexivity].
-Qed.
-
-Lemma drain_all_stuck : forall r, decode r = None -> drain_all r = ([], r).
-Proof. intros r H. rewrite drain_all_eq, H. reflexivity. Qed.
-
-(* appending more input to a buffer = draining what is there, then continuing on the remainder *)
-Lemma drain_all_app : forall b x fs r,
-  drain_all b = (fs, r) ->
-  drain_all (b ++ x) = let '(fs', r') := drain_all (r ++ x) in (fs ++ fs', r').
-Proof.
-  induction b as [b IH] using buf_ind. intros x fs r H.
-  rewrite drain_all_eq in H.
-  destruct (decode b) as [[fr rest]|] eqn:E.
-  - destruct (decode_some _ _ _ E) as (_ & _ & _ & _ & _ & _ & Hlt).
-    destruct (drain_all rest) as [fs0 r0] eqn:E0.
-    injection H as Hfs Hr. subst fs r.
-    rewrite (drain_all_eq (b ++ x)), (decode_app _ x _ _ E).
-    rewrite (IH rest Hlt x fs0 r0 E0).
-    destruct (drain_all (r0 ++ x)) as [fs' r']. reflexivity.
-  - injection H as Hfs Hr. subst fs r.
-    destruct (drain_all (b ++ x)) as [fs' r']. reflexivity.
-Qed.
-
-Lemma flat_frames_eq : forall b,
-  flat_frames b =
-  match decode b with
-  | None => eof_tail b
-  | Some (fr, rest) => fr :: flat_frames rest
-  end.
-Proof.
-  intros b. unfold flat_frames. rewrite drain_all_eq.
-  destruct (decode b) as [[fr rest]|]; [|reflexivity].
-  destruct (drain_all rest) as [fs r]. reflexivity.
-Qed.
-
-Lemma flat_frames_app : forall b x fs r,
-  drain_all b = (fs, r) -> flat_frames (b ++ x) = fs ++ flat_frames (r ++ x).
-Proof.
-  intros b x fs r H. unfold flat_frames. rewrite (drain_all_app b x fs r H).
-  destruct (drain_all (r ++ x)) as [fs' r']. rewrite app_assoc. reflexivity.
-Qed.
-
-Lemma concat_eof_tail : forall r, concat (eof_tail r) = r.
-Proof. intros [|x r]; [reflexivity|]. cbn [eof_tail concat]. apply app_nil_r. Qed.
-
-(* nothing is lost or invented by the framing: the frames, concatenated, are the input *)
-Lemma flat_frames_concat : forall b, concat (flat_frames b) = b.
-Proof.
-  intros b. unfold flat_frames. destruct (drain_all b) as [fs r] eqn:E.
-  destruct (drain_all_spec _ _ _ E) as (_ & Hb).
-  rewrite concat_app, concat_eof_tail. symmetry. exact Hb.
-Qed.
-
-Lemma feed_flat : forall chunks buf, feed buf chunks = flat_frames (buf ++ concat chunks).
-Proof.
-  induction chunks as [|c cs IH]; intros buf; cbn [feed concat].
-  - rewrite app_nil_r. reflexivity.
-  - destruct (drain_all (buf ++ c)) as [fs r] eqn:E.
-    rewrite IH, app_assoc. symmetry. apply flat_frames_app. exact E.
-Qed.
-
-(* MAIN 1: the frames the async reader's codec yields do not depend on the poll script *)
-Theorem async_frames_poll_indep : forall chunks,
-  async_frames chunks = flat_frames (concat chunks).
-Proof. intros chunks. unfold async_frames. rewrite feed_flat. reflexivity. Qed.
-
-Corollary async_frames_same_file : forall c1 c2,
-  concat c1 = concat c2 -> async_frames c1 = async_frames c2.
-Proof. intros c1 c2 H. rewrite !async_frames_poll_indep, H. reflexivity. Qed.
-
-Lemma chunks_of_concat : forall sizes file, concat (chunks_of sizes file) = file.
-Proof.
-  induction sizes as [|k ks IH]; intros file.
-  - destruct file as [|x file]; [reflexivity|]. cbn [chunks_of concat]. apply app_nil_r.
-  - destruct file as [|x file]; [reflexivity|].
-    cbn [chunks_of concat]. rewrite IH. apply firstn_skipn.
 Qed.
 
 (* ---------------------------------------------------------------------------------------- *)
@@ -236,53 +138,140 @@ Proof.
     rewrite ?skipn_length; lia.
 Qed.
 
-(* MAIN 2 (complete classification): the async framing always starts with the sync frames; what
-   follows is nothing exactly when the sync reader consumed the whole file, and otherwise is
-   determined by the way the sync framing stopped.  The three non-empty cases are the three
-   classes in which the two readers report different outcomes. *)
-Theorem sync_vs_async_framing : forall file fs e,
-  sync_all file = (fs, e) ->
-  exists rest, flat_frames file = fs ++ rest /\
-    match e with
-    | Eof => rest = [] \/ exists s, rest = [s] /\ 0 < length s < HDR
-    | Err InvalidData => exists s rest', rest = s :: rest' /\ 0 < length s < MIN_FRAME
-    | Err UnexpectedEof => exists s, rest = [s] /\ HDR <= length s < block_size s
-    end.
+(* a buffer on which decode asks for more input, at the end of the input: what decode_eof says
+   is what the sync reader says about the same bytes *)
+Lemma sync_all_stuck : forall r, decode r = More -> sync_all r = ([], eof_ending r).
+Proof.
+  intros r H. rewrite sync_all_eq. unfold eof_ending.
+  destruct (decode_more _ H) as [Hlt|(Hh & Hmin & Hlt)].
+  - apply Nat.ltb_lt in Hlt. rewrite Hlt. reflexivity.
+  - destruct (length r <? HDR) eqn:E1; [apply Nat.ltb_lt in E1; lia|].
+    cbv zeta.
+    destruct (block_size r <? MIN_FRAME) eqn:E2; [apply Nat.ltb_lt in E2; lia|].
+    destruct (length r <? block_size r) eqn:E3; [reflexivity|apply Nat.ltb_ge in E3; lia].
+Qed.
+
+Lemma firstn_app_le : forall (a b : list N) n, n <= length a -> firstn n (a ++ b) = firstn n a.
+Proof.
+  intros a b n H. rewrite firstn_app. replace (n - length a) with 0 by lia.
+  cbn [firstn]. apply app_nil_r.
+Qed.
+
+Lemma skipn_app_le : forall (a b : list N) n, n <= length a -> skipn n (a ++ b) = skipn n a ++ b.
+Proof.
+  intros a b n H. rewrite skipn_app. replace (n - length a) with 0 by lia. reflexivity.
+Qed.
+
+(* KEY: draining a buffer, then letting the sync reader loose on the remainder followed by more
+   input, is the sync reader on buffer followed by more input *)
+Lemma drain_sync : forall b x fs st r,
+  drain_all b = (fs, st, r) ->
+  match st with
+  | Failed => sync_all (b ++ x) = (fs, Err InvalidData)
+  | Stuck => decode r = More /\
+             sync_all (b ++ x) = let '(fs', e) := sync_all (r ++ x) in (fs ++ fs', e)
+  end.
+Proof.
+  induction b as [b IH] using buf_ind. intros x fs st r H.
+  rewrite drain_all_eq in H.
+  destruct (decode b) as [| |fr rest] eqn:E.
+  - injection H as Hfs Hst Hr. subst fs st r. split; [exact E|].
+    destruct (sync_all (b ++ x)) as [fs' e]. reflexivity.
+  - injection H as Hfs Hst Hr. subst fs st r.
+    destruct (decode_bad _ E) as [Hh Hbad].
+    rewrite sync_all_eq, app_length.
+    destruct (length b + length x <? HDR) eqn:E1; [apply Nat.ltb_lt in E1; lia|].
+    cbv zeta. rewrite (block_size_app b x Hh).
+    apply Nat.ltb_lt in Hbad. rewrite Hbad. reflexivity.
+  - destruct (decode_frame _ _ _ E) as (Hh & Hmin & Hn & Hfr & Hrest & Hlt).
+    destruct (drain_all rest) as [[fs0 st0] r0] eqn:E0.
+    injection H as Hfs Hst Hr. subst fs st r.
+    pose proof (IH rest Hlt x fs0 st0 r0 E0) as IHr.
+    assert (Hs : sync_all (b ++ x) = let '(fs', e) := sync_all (rest ++ x) in (fr :: fs', e)).
+    { rewrite sync_all_eq, app_length.
+      destruct (length b + length x <? HDR) eqn:E1; [apply Nat.ltb_lt in E1; lia|].
+      cbv zeta. rewrite (block_size_app b x Hh).
+      destruct (block_size b <? MIN_FRAME) eqn:E2; [apply Nat.ltb_lt in E2; lia|].
+      destruct (length b + length x <? block_size b) eqn:E3; [apply Nat.ltb_lt in E3; lia|].
+      rewrite (firstn_app_le b x _ Hn), (skipn_app_le b x _ Hn), <- Hfr, <- Hrest. reflexivity. }
+    destruct st0.
+    + destruct IHr as [Hmore IHs]. split; [exact Hmore|].
+      rewrite Hs, IHs. destruct (sync_all (r0 ++ x)) as [fs' e]. reflexivity.
+    + rewrite Hs, IHr. reflexivity.
+Qed.
+
+Lemma feed_sync : forall chunks buf, feed buf chunks = sync_all (buf ++ concat chunks).
+Proof.
+  induction chunks as [|c cs IH]; intros buf; cbn [feed concat].
+  - destruct (drain_all buf) as [[fs st] r] eqn:E.
+    pose proof (drain_sync buf [] fs st r E) as H.
+    destruct st.
+    + destruct H as [Hmore Hs]. rewrite Hs, (app_nil_r r), (sync_all_stuck r Hmore), app_nil_r.
+      reflexivity.
+    + symmetry. exact H.
+  - destruct (drain_all (buf ++ c)) as [[fs st] r] eqn:E.
+    pose proof (drain_sync (buf ++ c) (concat cs) fs st r E) as H.
+    rewrite <- app_assoc in H.
+    destruct st.
+    + destruct H as [_ Hs]. rewrite Hs, IH. reflexivity.
+    + symmetry. exact H.
+Qed.
+
+(* MAIN: for every byte string and every poll script the async frame stream -- frames and ending --
+   is the sync reader's *)
+Theorem async_framing_equals_sync : forall chunks,
+  async_frames chunks = sync_all (concat chunks).
+Proof. intros chunks. unfold async_frames. rewrite feed_sync. reflexivity. Qed.
+
+Corollary async_frames_poll_indep : forall c1 c2,
+  concat c1 = concat c2 -> async_frames c1 = async_frames c2.
+Proof. intros c1 c2 H. rewrite !async_framing_equals_sync, H. reflexivity. Qed.
+
+Theorem async_obs_equals_sync_obs : forall io file chunks,
+  concat chunks = file -> async_obs io chunks = sync_obs io file.
+Proof.
+  intros io file chunks Hc. unfold async_obs, sync_obs.
+  rewrite async_framing_equals_sync, Hc. reflexivity.
+Qed.
+
+Theorem async_obs_poll_indep : forall io c1 c2,
+  concat c1 = concat c2 -> async_obs io c1 = async_obs io c2.
+Proof.
+  intros io c1 c2 H.
+  rewrite (async_obs_equals_sync_obs io (concat c1) c1 eq_refl).
+  rewrite (async_obs_equals_sync_obs io (concat c1) c2 (eq_sym H)). reflexivity.
+Qed.
+
+Lemma chunks_of_concat : forall sizes file, concat (chunks_of sizes file) = file.
+Proof.
+  induction sizes as [|k ks IH]; intros file.
+  - destruct file as [|x file]; [reflexivity|]. cbn [chunks_of concat]. apply app_nil_r.
+  - destruct file as [|x file]; [reflexivity|].
+    cbn [chunks_of concat]. rewrite IH. apply firstn_skipn.
+Qed.
+
+(* the frames of the sync reader are a prefix of the file: nothing is invented *)
+Lemma sync_all_prefix : forall file fs e,
+  sync_all file = (fs, e) -> exists rest, file = concat fs ++ rest /\ (e = Eof -> length rest < HDR).
 Proof.
   induction file as [file IH] using buf_ind. intros fs e H.
-  rewrite sync_all_eq in H. rewrite flat_frames_eq. unfold decode.
+  rewrite sync_all_eq in H.
   destruct (length file <? HDR) eqn:E1.
-  - injection H as Hfs He. subst fs e. exists (eof_tail file). split; [reflexivity|].
-    apply Nat.ltb_lt in E1.
-    destruct file as [|x file]; [left; reflexivity|].
-    right. exists (x :: file). split; [reflexivity|]. cbn [length] in *. lia.
+  - injection H as Hfs He. subst fs e. exists file. split; [reflexivity|].
+    intros _. apply Nat.ltb_lt. exact E1.
   - cbv zeta in H. apply Nat.ltb_ge in E1.
     destruct (block_size file <? MIN_FRAME) eqn:E2.
-    + injection H as Hfs He. subst fs e. apply Nat.ltb_lt in E2.
-      pose proof (block_size_pos file) as Hp.
-      destruct (length file <? block_size file) eqn:E3.
-      * apply Nat.ltb_lt in E3. exists (eof_tail file). split; [reflexivity|].
-        destruct file as [|x file]; [unfold HDR in E1; cbn [length] in E1; lia|].
-        exists (x :: file), []. split; [reflexivity|]. cbn [length] in *. lia.
-      * apply Nat.ltb_ge in E3.
-        exists (firstn (block_size file) file :: flat_frames (skipn (block_size file) file)).
-        split; [reflexivity|].
-        exists (firstn (block_size file) file), (flat_frames (skipn (block_size file) file)).
-        split; [reflexivity|]. rewrite firstn_length. lia.
-    + apply Nat.ltb_ge in E2.
-      destruct (length file <? block_size file) eqn:E3.
-      * injection H as Hfs He. subst fs e. apply Nat.ltb_lt in E3.
-        exists (eof_tail file). split; [reflexivity|].
-        destruct file as [|x file]; [unfold HDR in E1; cbn [length] in E1; lia|].
-        exists (x :: file). split; [reflexivity|]. split; [exact E1|exact E3].
-      * apply Nat.ltb_ge in E3.
+    + injection H as Hfs He. subst fs e. exists file. split; [reflexivity|discriminate].
+    + destruct (length file <? block_size file) eqn:E3.
+      * injection H as Hfs He. subst fs e. exists file. split; [reflexivity|discriminate].
+      * apply Nat.ltb_ge in E2, E3.
         destruct (sync_all (skipn (block_size file) file)) as [fs' e'] eqn:E'.
         injection H as Hfs He. subst fs e.
         assert (Hlt : length (skipn (block_size file) file) < length file).
         { rewrite skipn_length. unfold MIN_FRAME in E2. unfold HDR in E1. lia. }
-        destruct (IH _ Hlt fs' e' E') as (rest & Hflat & Hcls).
-        exists rest. split; [|exact Hcls].
-        rewrite Hflat. reflexivity.
+        destruct (IH _ Hlt fs' e' E') as (rest & Hc & Hr).
+        exists rest. split; [|exact Hr].
+        cbn [concat]. rewrite <- app_assoc, <- Hc. symmetry. apply firstn_skipn.
 Qed.
 
 (* a well-formed frame: at least MIN_FRAME bytes and its BSIZE field says its own length *)
@@ -315,100 +304,34 @@ Proof.
     rewrite skipn_app_exact, firstn_app_exact, (IH Hrest). reflexivity.
 Qed.
 
-Lemma flat_frames_wf : forall frs, Forall wf_frame frs -> flat_frames (concat frs) = frs.
+(* on a file made of well-formed frames both readers yield exactly those frames and end cleanly *)
+Theorem async_frames_wf : forall frs chunks,
+  Forall wf_frame frs -> concat chunks = concat frs -> async_frames chunks = (frs, Eof).
 Proof.
-  intros frs Hall.
-  destruct (sync_vs_async_framing _ _ _ (sync_all_wf frs Hall)) as (rest & Hflat & Hcls).
-  pose proof (flat_frames_concat (concat frs)) as Hc.
-  rewrite Hflat, concat_app in Hc.
-  assert (Hr : concat rest = []).
-  { apply (app_inv_head (concat frs)). rewrite app_nil_r. exact Hc. }
-  destruct Hcls as [Hnil|(s & Hs & Hlen)].
-  - rewrite Hflat, Hnil. apply app_nil_r.
-  - subst rest. cbn [concat] in Hr. rewrite app_nil_r in Hr. subst s. cbn [length] in Hlen. lia.
-Qed.
-
-(* MAIN 3: on a file made of well-formed frames the async framing, under every poll script,
-   and the sync framing agree: the same frames, clean end *)
-Theorem async_framing_equals_sync_wf : forall frs chunks,
-  Forall wf_frame frs -> concat chunks = concat frs ->
-  async_frames chunks = frs /\ sync_all (concat chunks) = (frs, Eof).
-Proof.
-  intros frs chunks Hall Hc. split.
-  - rewrite async_frames_poll_indep, Hc. apply flat_frames_wf. exact Hall.
-  - rewrite Hc. apply sync_all_wf. exact Hall.
-Qed.
-
-(* the same, with the known class excluded instead of a well-formedness premise: whenever the
-   sync framing consumes the whole file (no bytes are left when it stops), it stopped cleanly and
-   the async framing under every poll script yields exactly the same frames *)
-Theorem async_framing_equals_sync_consumed : forall file chunks fs e,
-  concat chunks = file -> sync_all file = (fs, e) -> concat fs = file ->
-  e = Eof /\ async_frames chunks = fs.
-Proof.
-  intros file chunks fs e Hc Hs Hall.
-  destruct (sync_vs_async_framing _ _ _ Hs) as (rest & Hflat & Hcls).
-  pose proof (flat_frames_concat file) as Hcc.
-  rewrite Hflat, concat_app, Hall in Hcc.
-  assert (Hr : concat rest = []).
-  { apply (app_inv_head file). rewrite app_nil_r. exact Hcc. }
-  assert (Hrest : e = Eof /\ rest = []).
-  { destruct e as [|[|]].
-    - split; [reflexivity|]. destruct Hcls as [Hnil|(s & Hs' & Hlen)]; [exact Hnil|].
-      subst rest. cbn [concat] in Hr. rewrite app_nil_r in Hr. subst s. cbn [length] in Hlen. lia.
-    - destruct Hcls as (s & Hs' & Hlen1 & Hlen2). subst rest. cbn [concat] in Hr.
-      rewrite app_nil_r in Hr. subst s. unfold HDR in Hlen1. cbn [length] in Hlen1. lia.
-    - destruct Hcls as (s & rest' & Hs' & Hlen). subst rest. cbn [concat] in Hr.
-      apply app_eq_nil in Hr. destruct Hr as [Hs0 _]. subst s. cbn [length] in Hlen. lia. }
-  destruct Hrest as [He Hnil]. split; [exact He|].
-  rewrite async_frames_poll_indep, Hc, Hflat, Hnil. apply app_nil_r.
+  intros frs chunks Hall Hc. rewrite async_framing_equals_sync, Hc. apply sync_all_wf. exact Hall.
 Qed.
 
 (* ---------------------------------------------------------------------------------------- *)
-(* block transcripts                                                                         *)
-
-Theorem async_obs_poll_indep : forall io c1 c2,
-  concat c1 = concat c2 -> async_obs io c1 = async_obs io c2.
-Proof. intros io c1 c2 H. unfold async_obs. rewrite (async_frames_same_file c1 c2 H). reflexivity. Qed.
-
-Theorem async_obs_equals_sync_obs : forall io file chunks fs e,
-  concat chunks = file -> sync_all file = (fs, e) -> concat fs = file ->
-  async_obs io chunks = sync_obs io file.
-Proof.
-  intros io file chunks fs e Hc Hs Hall.
-  destruct (async_framing_equals_sync_consumed file chunks fs e Hc Hs Hall) as [He Ha].
-  unfold async_obs, sync_obs. rewrite Hs, Ha, He. reflexivity.
-Qed.
-
-(* ---------------------------------------------------------------------------------------- *)
-(* the three classes in which the two readers differ (candidate finding F16), as witnesses     *)
+(* the three input classes on which the two readers differed before the repair (F16): now equal *)
 
 Definition eof_block : list N :=
   [31; 139; 8; 4; 0; 0; 0; 0; 0; 255; 6; 0; 66; 67; 2; 0; 27; 0; 3; 0; 0; 0; 0; 0; 0; 0; 0; 0]%N.
 
 Definition all_ok : nat -> list N -> bool := fun _ _ => true.
 
-(* (a) 1..17 stray bytes after the last frame: clean end in sync, UnexpectedEof in async *)
-Lemma async_equals_sync_trailing_partial_refuted :
-  exists file, sync_obs all_ok file = ([], 28%N, Eof) /\
-               async_obs all_ok [file] = ([], 28%N, Err UnexpectedEof).
-Proof. exists (eof_block ++ [31; 139]%N). vm_compute. split; reflexivity. Qed.
+Lemma trailing_partial_frame_example :
+  let file := (eof_block ++ [31; 139])%N in
+  sync_obs all_ok file = ([], 28%N, Eof) /\ async_obs all_ok [file] = ([], 28%N, Eof).
+Proof. vm_compute. split; reflexivity. Qed.
 
-(* (b) BSIZE + 1 < 26: InvalidData in sync, UnexpectedEof in async *)
-Lemma async_equals_sync_undersized_bsize_refuted :
-  exists file, sync_obs all_ok file = ([], 0%N, Err InvalidData) /\
-               async_obs all_ok [file] = ([], 0%N, Err UnexpectedEof).
-Proof.
-  exists (firstn 16 eof_block ++ [17; 0; 237; 242]%N). vm_compute. split; reflexivity.
-Qed.
+Lemma undersized_bsize_example :
+  let file := (firstn 16 eof_block ++ [17; 0; 237; 242])%N in
+  sync_obs all_ok file = ([], 0%N, Err InvalidData) /\
+  async_obs all_ok [file] = ([], 0%N, Err InvalidData).
+Proof. vm_compute. split; reflexivity. Qed.
 
-(* (c) last frame cut inside its body with >= 26 bytes left: UnexpectedEof in sync; the async
-   codec hands the fragment to parse_block, which fails with InvalidData (here already in the
-   ISIZE check, before inflate) *)
-Lemma async_equals_sync_truncated_frame_refuted :
-  exists file, sync_obs all_ok file = ([], 0%N, Err UnexpectedEof) /\
-               async_obs all_ok [file] = ([], 0%N, Err InvalidData).
-Proof.
-  exists (firstn 16 eof_block ++ [40; 0; 1; 2; 3; 4; 5; 6; 7; 8; 255; 255; 255; 255]%N).
-  vm_compute. split; reflexivity.
-Qed.
+Lemma truncated_frame_example :
+  let file := (eof_block ++ firstn 16 eof_block ++ [40; 0; 1; 2; 3; 4; 5; 6; 7; 8; 255; 255; 255; 255])%N in
+  sync_obs all_ok file = ([], 28%N, Err UnexpectedEof) /\
+  async_obs all_ok [firstn 40 file; skipn 40 file] = ([], 28%N, Err UnexpectedEof).
+Proof. vm_compute. split; reflexivity. Qed.
